@@ -29,3 +29,4 @@ void h_close_error(void) { nni_ws *ws; uint16_t code; VP_HAVOC_GHOSTS(); ws_clos
 void h_str_close(void) { void *arg; VP_HAVOC_GHOSTS(); ws_str_close(arg); VP_CANARY(); }
 void h_start_write(void) { nni_ws *ws; VP_HAVOC_GHOSTS(); ws_start_write(ws); VP_CANARY(); }
 void h_write_cb(void) { void *arg; VP_HAVOC_GHOSTS(); ws_write_cb(arg); VP_CANARY(); }
+void h_finish_str(void) { nni_ws *ws; VP_HAVOC_GHOSTS(); ws_read_finish_str(ws); VP_CANARY(); }
